@@ -120,8 +120,8 @@ func writeSrcFacts(outdir string) error {
 	consts := map[string]string{}
 	type site struct{ fn, kind string }
 	var panics, ranges []site
-	writes := map[string]bool{}    // "file|function|lhs" for writes through a receiver, a parameter or a package variable
-	globals := map[string]bool{}   // package-level variables
+	writes := map[string]bool{}  // "file|function|lhs" for writes through a receiver, a parameter or a package variable
+	globals := map[string]bool{} // package-level variables
 	for _, f := range files {
 		for _, d := range f.Decls {
 			if gd, ok := d.(*ast.GenDecl); ok && gd.Tok == token.VAR {
